@@ -9,6 +9,36 @@ import (
 
 func init() {
 	vpHarnesses["VP_C10_fields"] = VP_C10_fields
+	vpHarnesses["VP_C10_text"] = VP_C10_text
+}
+
+// C10/text: formulas parsed from text (so that source positions exist), with
+// asserting member access and spacing; the reported fields are compared with
+// hand-written sets.
+func VP_C10_text() {
+	pool := []struct {
+		text string
+		want []string
+		nl   []string
+	}{
+		{"person!.name + person.name", []string{"person.name"}, []string{"person.name"}},
+		{"a . b + a!.b.c", []string{"a.b", "a.b.c"}, []string{"a.b", "a.b.c"}},
+		{"($u = user, $u.name)", []string{"user", "$u.name"}, []string{"user"}},
+		{"f(x!.y, [z . w])", []string{"x.y", "z.w"}, []string{"x.y", "z.w"}},
+		{"typeof o!.p === 'string' ? o.p : q", []string{"o.p", "q"}, []string{"o.p", "q"}},
+	}
+	p := pool[vpChoice("f", len(pool))]
+	code, err := ParseSourceCode([]byte(p.text))
+	vpAssert("C10/text/parses", err == nil)
+	if err != nil {
+		return
+	}
+	got, e1 := ResolveReferenceFields(code)
+	gotNL, e2 := ResolveReferenceFieldsNotLocal(code)
+	vpAssert("C10/text/no-error", e1 == nil && e2 == nil)
+	vpAssert("C10/text/exact-set", vpSameSetModulo(got, p.want, []string{"$u"}) && vpNoDup(got))
+	vpAssert("C10/text/not-local-variant", vpSameSetModulo(gotNL, p.nl, nil) && vpNoDup(gotNL))
+	vpReach("C10/text/done")
 }
 
 const (
